@@ -1,6 +1,885 @@
-//! C11 — not implemented yet.
-use crate::report::{Cfg, Report};
+//! C11 — factorisations reconstruct the input and have the promised structure (DESIGN §3 C11).
+//!
+//! Events: every return (value or panic) of `cholesky`, `lu`, `lu_solve`, `cholesky_solve`,
+//! `forward_substitution`, `backward_substitution` in their slice and `Matrix` forms, of `solve` on
+//! SPD input, and of `Matrix::det` / `Matrix::lu_det`.
+//! Oracle: structure checks are exact (zero upper triangle, positive diagonal, |l_ij| ≤ 1, pivots a
+//! permutation, slice factors bit-equal to Matrix factors); reconstruction `L·Lᵀ = A`, `P·A = L·U` and
+//! all triangular-solve residuals are evaluated in double-double against a-priori `C·n·ε` bounds; the
+//! determinant is compared with the product of U's diagonal times the permutation sign that the
+//! harness recomputes by cycle counting, and that signed product with the exact (Bareiss) determinant
+//! of integer matrices — exactly for (scaled) permutation matrices, all 873 of order ≤ 6 are
+//! enumerated. Input that is not positive definite must make `cholesky` panic, never return
+//! non-finite factors.
+//! The lite mode (Miri / memcheck) keeps every order and reads every output element: the slice
+//! substitution routines write into `set_len` buffers.
+use crate::gen::Rng;
+use crate::oracle::dd::Dd;
+use crate::oracle::{exact, linref};
+use crate::report::{guard, jf, jnum, par_cases, same_bits_slice, Cfg, Hasher, Report};
+use compute::linalg::{backward_substitution, cholesky, cholesky_solve, forward_substitution, lu, lu_solve, solve, Matrix, Solve, Vector};
+use serde_json::{json, Value};
 
-pub fn run(_cfg: &Cfg, rep: &mut Report) {
-    rep.inconclusive("monitor for C11 not implemented".to_string());
+/// rounding-bound constant: every bound below is C · n · ε · (scale named at the check)
+const C: f64 = 16.0;
+const EPS: f64 = f64::EPSILON;
+
+// ------------------------------------------------------------------------------------------------
+// helpers (row-major)
+
+fn max_abs(x: &[f64]) -> f64 {
+    x.iter().fold(0.0f64, |m, v| if v.is_nan() { f64::NAN } else { m.max(v.abs()) })
+}
+fn all_finite(x: &[f64]) -> bool {
+    x.iter().all(|v| v.is_finite())
+}
+fn col(m: &[f64], n: usize, k: usize, j: usize) -> Vec<f64> {
+    (0..n).map(|i| m[i * k + j]).collect()
+}
+fn is_diagonal(a: &[f64], n: usize) -> bool {
+    (0..n).all(|i| (0..n).all(|j| i == j || a[i * n + j] == 0.0))
+}
+
+/// |Σ_t x_t·y_t − c| with the sum in double-double. Under Miri a double-double operation costs about a
+/// millisecond, so there the sum is taken in plain f64: its own rounding error is at most
+/// (len+1)·ε/2·(Σ|x_t·y_t| + |c|), which adds less than 1 to ratios that are compared with C = 16.
+fn sum_prod_minus(c: f64, len: usize, term: impl Fn(usize) -> (f64, f64)) -> f64 {
+    if cfg!(miri) {
+        let mut s = -c;
+        for t in 0..len {
+            let (x, y) = term(t);
+            s += x * y;
+        }
+        s.abs()
+    } else {
+        let mut s = Dd::new(-c);
+        for t in 0..len {
+            let (x, y) = term(t);
+            s = s + Dd::prod(x, y);
+        }
+        s.f().abs()
+    }
+}
+
+/// κ∞(A) from an inverse computed in double-double (natively) or by plain f64 Gauss–Jordan with
+/// partial pivoting (Miri; only used as a gate / forward-error scale, where 1e-16·κ accuracy suffices)
+fn cond_inf(a: &[f64], n: usize) -> f64 {
+    if !cfg!(miri) {
+        return linref::cond_inf(a, n);
+    }
+    let mut m = a.to_vec();
+    let mut inv = vec![0.0; n * n];
+    for i in 0..n {
+        inv[i * n + i] = 1.0;
+    }
+    for c in 0..n {
+        let mut p = c;
+        for r in c + 1..n {
+            if m[r * n + c].abs() > m[p * n + c].abs() {
+                p = r;
+            }
+        }
+        if m[p * n + c] == 0.0 || !m[p * n + c].is_finite() {
+            return f64::INFINITY;
+        }
+        if p != c {
+            for j in 0..n {
+                m.swap(p * n + j, c * n + j);
+                inv.swap(p * n + j, c * n + j);
+            }
+        }
+        let piv = m[c * n + c];
+        for j in 0..n {
+            m[c * n + j] /= piv;
+            inv[c * n + j] /= piv;
+        }
+        for r in 0..n {
+            if r != c && m[r * n + c] != 0.0 {
+                let f = m[r * n + c];
+                for j in 0..n {
+                    m[r * n + j] -= f * m[c * n + j];
+                    inv[r * n + j] -= f * inv[c * n + j];
+                }
+            }
+        }
+    }
+    linref::inf_norm(a, n, n) * linref::inf_norm(&inv, n, n)
+}
+
+/// ‖A·x − b‖∞ / (‖A‖∞‖x‖∞ + ‖b‖∞), residual in double-double; +inf for a non-finite or mis-sized x.
+/// Every element of `x` is read.
+fn backward_error(a: &[f64], n: usize, x: &[f64], b: &[f64]) -> f64 {
+    if x.len() != n || !all_finite(x) {
+        return f64::INFINITY;
+    }
+    let mut r = 0.0f64;
+    for i in 0..n {
+        let v = sum_prod_minus(b[i], n, |t| (a[i * n + t], x[t]));
+        if v.is_nan() {
+            return f64::INFINITY;
+        }
+        r = r.max(v);
+    }
+    let den = linref::inf_norm(a, n, n) * max_abs(x) + max_abs(b);
+    if den == 0.0 {
+        if r == 0.0 {
+            0.0
+        } else {
+            f64::INFINITY
+        }
+    } else {
+        r / den
+    }
+}
+
+/// cheap order-sensitive digest of the bit patterns (the byte-wise `Hasher::fs` costs 3 ms per float under Miri)
+fn bits_digest(xs: &[f64]) -> u64 {
+    let mut h: u64 = 0x9E3779B97F4A7C15;
+    for x in xs {
+        h = (h.rotate_left(5) ^ x.to_bits()).wrapping_mul(0x100000001b3);
+    }
+    h
+}
+
+/// sign of the permutation `p` (must be a permutation of 0..n) by cycle counting, and its longest cycle
+fn perm_sign_cycles(p: &[usize]) -> (f64, usize) {
+    let n = p.len();
+    let mut seen = vec![false; n];
+    let mut sign = 1.0;
+    let mut longest = 0;
+    for i in 0..n {
+        if seen[i] {
+            continue;
+        }
+        let mut len = 0;
+        let mut j = i;
+        while !seen[j] {
+            seen[j] = true;
+            j = p[j];
+            len += 1;
+        }
+        if len % 2 == 0 {
+            sign = -sign;
+        }
+        longest = longest.max(len);
+    }
+    (sign, longest)
+}
+
+fn as_perm(piv: &[i32], n: usize) -> Option<Vec<usize>> {
+    if piv.len() != n {
+        return None;
+    }
+    let mut seen = vec![false; n];
+    let mut out = Vec::with_capacity(n);
+    for &p in piv {
+        if p < 0 || p as usize >= n || seen[p as usize] {
+            return None;
+        }
+        seen[p as usize] = true;
+        out.push(p as usize);
+    }
+    Some(out)
+}
+
+fn rhs(rng: &mut Rng, n: usize) -> Vec<f64> {
+    (0..n).map(|i| (0.25 + rng.f64()) * (1.0 + i as f64 * 0.125) * if rng.chance(0.3) { -1.0 } else { 1.0 }).collect()
+}
+
+fn mat(a: &[f64], n: usize) -> Matrix {
+    Matrix::new(a.to_vec(), n as i32, n as i32)
+}
+
+fn detail(class: &str, how: &str, n: usize, a: &[f64], observed: Value) -> Value {
+    json!({"class": class, "how": how, "n": n, "A": jf(a), "observed": observed})
+}
+
+/// assertion ids of one solve routine (static strings: `format!` costs milliseconds under Miri)
+struct SolveIds {
+    no_panic: &'static str,
+    residual: &'static str,
+    note: &'static str,
+}
+const CHOLESKY_SOLVE: SolveIds = SolveIds { no_panic: "C11.cholesky_solve.no_panic", residual: "C11.cholesky_solve.residual", note: "worst_ratio.cholesky_solve.backward_error_over_n_eps" };
+const SOLVE_SPD: SolveIds = SolveIds { no_panic: "C11.solve_spd.no_panic", residual: "C11.solve_spd.residual", note: "worst_ratio.solve_spd.backward_error_over_n_eps" };
+const LU_SOLVE: SolveIds = SolveIds { no_panic: "C11.lu_solve.no_panic", residual: "C11.lu_solve.residual", note: "worst_ratio.lu_solve.backward_error_over_n_eps" };
+const FORWARD_SUBST: SolveIds = SolveIds { no_panic: "C11.forward_substitution.no_panic", residual: "C11.forward_substitution.residual", note: "worst_ratio.forward_substitution.backward_error_over_n_eps" };
+const BACKWARD_SUBST: SolveIds = SolveIds { no_panic: "C11.backward_substitution.no_panic", residual: "C11.backward_substitution.residual", note: "worst_ratio.backward_substitution.backward_error_over_n_eps" };
+
+/// one residual assertion shared by all triangular / factor solves; records headroom
+fn check_solve(rep: &mut Report, ids: &SolveIds, regime: &str, how: &str, form: &str, a: &[f64], n: usize, x: &Result<Vec<f64>, String>, b: &[f64]) {
+    match x {
+        Err(e) => {
+            rep.check(ids.no_panic, regime, false, || detail(regime, how, n, a, json!({"form": form, "b": jf(b), "panic": e})));
+        }
+        Ok(x) => {
+            let be = backward_error(a, n, x, b);
+            let tol = C * n as f64 * EPS;
+            let ok = be <= tol;
+            if ok {
+                rep.note_max(ids.note, be / (n as f64 * EPS));
+            }
+            rep.check(ids.residual, regime, ok, || {
+                detail(regime, how, n, a, json!({"form": form, "b": jf(b), "x": jf(x), "len": x.len(), "backward_error": jnum(be), "bound": tol}))
+            });
+        }
+    }
+}
+
+// ------------------------------------------------------------------------------------------------
+// generators
+
+fn gen_spd(rng: &mut Rng, n: usize) -> (Vec<f64>, String) {
+    let integer = rng.chance(0.25);
+    let g: Vec<f64> = if integer { rng.ints(n * n, -3, 3) } else { (0..n * n).map(|_| rng.range(-1.0, 1.0)).collect() };
+    let mut a = vec![0.0; n * n];
+    for i in 0..n {
+        for j in i..n {
+            let mut s = 0.0;
+            for t in 0..n {
+                s += g[t * n + i] * g[t * n + j];
+            }
+            a[i * n + j] = s;
+            a[j * n + i] = s;
+        }
+    }
+    if integer {
+        let d = rng.int(1, 4) as f64;
+        for i in 0..n {
+            a[i * n + i] += d;
+        }
+        return (a, format!("G^T G + {} I with integer G (entries -3..3)", d));
+    }
+    let u = rng.range(0.0, 8.0);
+    let delta = (linref::inf_norm(&a, n, n) * 10f64.powf(-u)).max(f64::MIN_POSITIVE);
+    for i in 0..n {
+        a[i * n + i] += delta;
+    }
+    (a, format!("G^T G + delta I, G uniform(-1,1), delta = |G^T G|_inf * 1e-{:.2} (cond <= 1e8)", u))
+}
+
+fn gen_sym_indef(rng: &mut Rng, n: usize) -> Vec<f64> {
+    let mut a = vec![0.0; n * n];
+    for i in 0..n {
+        for j in i..n {
+            let v = if i == j { rng.range(0.1, 1.0) } else { rng.range(-1.0, 1.0) };
+            a[i * n + j] = v;
+            a[j * n + i] = v;
+        }
+    }
+    let p = rng.usize(0, n - 2);
+    let q = rng.usize(p + 1, n - 1);
+    let v = rng.range(1.25, 2.0) * (a[p * n + p] * a[q * n + q]).sqrt() * if rng.bool() { 1.0 } else { -1.0 };
+    a[p * n + q] = v;
+    a[q * n + p] = v;
+    a
+}
+
+/// exactly singular positive semi-definite integer matrix with positive diagonal: G·Gᵀ, G n×r, r < n
+fn gen_psd_singular(rng: &mut Rng, n: usize) -> (Vec<f64>, String) {
+    let r = rng.usize(1, n - 1);
+    let mut g = rng.ints(n * r, -2, 2);
+    for i in 0..n {
+        if (0..r).all(|t| g[i * r + t] == 0.0) {
+            g[i * r] = if rng.bool() { 1.0 } else { -1.0 };
+        }
+    }
+    let mut a = vec![0.0; n * n];
+    for i in 0..n {
+        for j in 0..n {
+            a[i * n + j] = (0..r).map(|t| g[i * r + t] * g[j * r + t]).sum();
+        }
+    }
+    (a, format!("G G^T with integer G {}x{} (rank <= {})", n, r, r))
+}
+
+const LU_CLASSES: [&str; 8] = [
+    "lu:dense",
+    "lu:integer",
+    "lu:singular",
+    "lu:rank-deficient",
+    "lu:zero-leading",
+    "lu:perm-matrix",
+    "lu:sym-indef-posdiag",
+    "lu:diag-dominant",
+];
+
+struct LuInput {
+    regime: &'static str,
+    how: String,
+    n: usize,
+    a: Vec<f64>,
+    /// every entry is an integer (exact determinant by Bareiss when the order allows)
+    integer: bool,
+    /// elimination stays exact (0/±2^k entries, one per row and column): determinant known exactly
+    exact_det: Option<f64>,
+}
+
+fn perm_matrix(sigma: &[usize], vals: &[f64]) -> Vec<f64> {
+    let n = sigma.len();
+    let mut a = vec![0.0; n * n];
+    for i in 0..n {
+        a[i * n + sigma[i]] = vals[i];
+    }
+    a
+}
+
+fn gen_lu(rng: &mut Rng, class: &'static str, n: usize, alt: bool) -> LuInput {
+    let mut regime = class;
+    let mut integer = false;
+    let mut exact_det = None;
+    let (a, how): (Vec<f64>, String) = match class {
+        "lu:dense" => {
+            let scale = rng.log_range(1e-3, 1e3);
+            ((0..n * n).map(|_| scale * rng.range(-1.0, 1.0)).collect(), format!("uniform(-1,1) x {:e}", scale))
+        }
+        "lu:integer" => {
+            integer = true;
+            (rng.ints(n * n, -5, 5), "integer entries -5..5".into())
+        }
+        "lu:singular" => {
+            integer = true;
+            let mut a = rng.ints(n * n, -5, 5);
+            let kind = rng.usize(0, 4);
+            let p = rng.usize(0, n - 1);
+            let q = if n > 1 { (p + rng.usize(1, n - 1)) % n } else { p };
+            let how = match kind {
+                0 => {
+                    (0..n).for_each(|j| a[p * n + j] = 0.0);
+                    format!("integer -5..5, row {} zero", p)
+                }
+                1 => {
+                    (0..n).for_each(|i| a[i * n + p] = 0.0);
+                    format!("integer -5..5, column {} zero", p)
+                }
+                2 if n > 1 => {
+                    (0..n).for_each(|j| a[q * n + j] = a[p * n + j]);
+                    format!("integer -5..5, row {} = row {}", q, p)
+                }
+                3 if n > 1 => {
+                    (0..n).for_each(|i| a[i * n + q] = a[i * n + p]);
+                    format!("integer -5..5, column {} = column {}", q, p)
+                }
+                _ if n > 2 => {
+                    let r = (0..n).find(|&r| r != p && r != q).unwrap();
+                    (0..n).for_each(|j| a[r * n + j] = a[p * n + j] - a[q * n + j]);
+                    format!("integer, row {} = row {} - row {}", r, p, q)
+                }
+                _ => {
+                    a.iter_mut().for_each(|v| *v = 0.0);
+                    "zero matrix".to_string()
+                }
+            };
+            (a, how)
+        }
+        "lu:rank-deficient" => {
+            integer = true;
+            if n == 1 {
+                (vec![0.0], "zero 1x1".into())
+            } else {
+                let r = rng.usize(1, n - 1);
+                let b = rng.ints(n * r, -1, 1);
+                let c = rng.ints(r * n, -1, 1);
+                let mut a = vec![0.0; n * n];
+                for i in 0..n {
+                    for j in 0..n {
+                        a[i * n + j] = (0..r).map(|t| b[i * r + t] * c[t * n + j]).sum();
+                    }
+                }
+                (a, format!("B·C with B {}x{}, C {}x{}, entries -1..1 (rank <= {})", n, r, r, n, r))
+            }
+        }
+        "lu:zero-leading" => {
+            integer = rng.bool();
+            let mut a: Vec<f64> = if integer { rng.ints(n * n, -5, 5) } else { (0..n * n).map(|_| rng.range(-1.0, 1.0)).collect() };
+            let m = rng.usize(1, (n / 2).max(1));
+            for i in 0..m {
+                for j in 0..m {
+                    a[i * n + j] = 0.0;
+                }
+            }
+            (a, format!("{} entries, leading {}x{} block zero", if integer { "integer -5..5" } else { "uniform(-1,1)" }, m, m))
+        }
+        "lu:perm-matrix" => {
+            let sigma = rng.perm(n);
+            let (sg, _) = perm_sign_cycles(&sigma);
+            if !alt {
+                integer = true;
+                exact_det = Some(sg);
+                (perm_matrix(&sigma, &vec![1.0; n]), format!("permutation matrix, sigma = {:?}", sigma))
+            } else {
+                regime = "lu:perm-scaled";
+                let vals: Vec<f64> = (0..n).map(|_| 2f64.powi(rng.int(-3, 3) as i32) * if rng.bool() { 1.0 } else { -1.0 }).collect();
+                exact_det = Some(vals.iter().fold(sg, |acc, v| acc * v));
+                (perm_matrix(&sigma, &vals), format!("A[i][sigma(i)] = ±2^k, sigma = {:?}", sigma))
+            }
+        }
+        "lu:sym-indef-posdiag" => {
+            if n == 1 {
+                (vec![rng.range(0.1, 1.0)], "1x1 positive".into())
+            } else {
+                (gen_sym_indef(rng, n), "symmetric uniform(-1,1), diagonal in (0.1,1), one 2x2 principal minor negative".into())
+            }
+        }
+        _ => {
+            let mut a: Vec<f64> = (0..n * n).map(|_| rng.range(-1.0, 1.0)).collect();
+            for i in 0..n {
+                let off: f64 = (0..n).filter(|&j| j != i).map(|j| a[i * n + j].abs()).sum();
+                let d = off + rng.range(0.1, 1.0);
+                a[i * n + i] = if rng.bool() { d } else { -d };
+            }
+            (a, "strictly row diagonally dominant (no row exchange needed)".into())
+        }
+    };
+    LuInput { regime, how, n, a, integer, exact_det }
+}
+
+// ------------------------------------------------------------------------------------------------
+// Cholesky on SPD input
+
+fn check_chol_factor(rep: &mut Report, regime: &str, how: &str, form: &str, a: &[f64], n: usize, l: &[f64]) -> bool {
+    let d = |obs: Value| detail(regime, how, n, a, obs);
+    if !rep.check("C11.chol.shape", regime, l.len() == n * n, || d(json!({"form": form, "len": l.len()}))) {
+        return false;
+    }
+    let fin = rep.check("C11.chol.finite", regime, all_finite(l), || d(json!({"form": form, "L": jf(l)})));
+    let lower = (0..n).all(|i| (i + 1..n).all(|j| l[i * n + j] == 0.0));
+    rep.check("C11.chol.lower_triangular", regime, lower, || d(json!({"form": form, "L": jf(l)})));
+    let posdiag = (0..n).all(|i| l[i * n + i] > 0.0);
+    rep.check("C11.chol.diag_positive", regime, posdiag, || d(json!({"form": form, "diag": jf(&(0..n).map(|i| l[i * n + i]).collect::<Vec<_>>())})));
+    if !fin {
+        return false;
+    }
+    // ‖L·Lᵀ − A‖∞ ≤ C·n·ε·‖A‖∞ (lower triangle of L only, so a stray upper entry is reported once, above)
+    let mut worst = 0.0f64;
+    for i in 0..n {
+        let mut row = 0.0;
+        for j in 0..n {
+            row += sum_prod_minus(a[i * n + j], i.min(j) + 1, |t| (l[i * n + t], l[j * n + t]));
+        }
+        worst = worst.max(row);
+    }
+    let scale = linref::inf_norm(a, n, n);
+    let tol = C * n as f64 * EPS * scale;
+    let ok = worst <= tol;
+    if ok && scale > 0.0 {
+        rep.note_max("worst_ratio.chol.reconstruct_over_n_eps_normA", worst / (n as f64 * EPS * scale));
+    }
+    rep.check("C11.chol.reconstruct", regime, ok, || d(json!({"form": form, "L": jf(l), "norm_LLt_minus_A": jnum(worst), "bound": jnum(tol)})));
+    ok && lower && posdiag
+}
+
+fn chol_case(rep: &mut Report, rng: &mut Rng, n: usize) {
+    let (a, how) = gen_spd(rng, n);
+    chol_check(rep, rng, n, a, how);
+}
+
+fn chol_check(rep: &mut Report, rng: &mut Rng, n: usize, a: Vec<f64>, how: String) {
+    // bit-identity of the two implementations is filed per order band: the Matrix form takes dot
+    // products of whole zero-padded rows, the slice form of prefixes; with the 8-way unrolled `dot`
+    // the two summation orders coincide up to order 15 and differ from order 16 on
+    let regime = "chol-spd";
+    rep.case(regime);
+    rep.distinct(Hasher::new().s(regime).u(n as u64).u(bits_digest(&a)).finish(), n >= 2 && !is_diagonal(&a, n));
+    let m = mat(&a, n);
+    let ls = guard(|| cholesky(&a));
+    let lm = guard(|| m.cholesky());
+    for (form, r) in [("slice", ls.as_ref().map(|v| v.clone())), ("Matrix", lm.as_ref().map(|v| v.data.to_vec()))] {
+        match r {
+            Err(e) => {
+                rep.check("C11.chol.no_panic", regime, false, || detail(regime, &how, n, &a, json!({"form": form, "panic": e})));
+            }
+            Ok(l) => {
+                rep.check("C11.chol.no_panic", regime, true, || json!(null));
+                check_chol_factor(rep, regime, &how, form, &a, n, &l);
+            }
+        }
+    }
+    if let (Ok(ls), Ok(lm)) = (&ls, &lm) {
+        let band = if n <= 15 { "chol-spd:order<=15" } else { "chol-spd:order>=16" };
+        rep.seen(band, 1);
+        let same = same_bits_slice(ls, &lm.data) && lm.nrows == n && lm.ncols == n;
+        rep.check("C11.chol.slice_eq_matrix", band, same, || {
+            let k = (0..ls.len().min(lm.data.len())).find(|&k| ls[k].to_bits() != lm.data[k].to_bits());
+            detail(band, &how, n, &a, json!({"first_differing_index": k, "slice": k.map(|k| jnum(ls[k])), "Matrix": k.map(|k| jnum(lm.data[k])),
+                "ulps_apart": k.map(|k| (ls[k].to_bits() as i64 - lm.data[k].to_bits() as i64).abs())}))
+        });
+        // whatever the summation order, the two factors may differ by rounding only
+        if ls.len() == lm.data.len() && all_finite(ls) {
+            let scale = max_abs(ls);
+            let dmax = ls.iter().zip(lm.data.iter()).fold(0.0f64, |w, (x, y)| w.max((x - y).abs()));
+            let kappa_room = C * n as f64 * EPS * scale * 1e8; // forward error of a Cholesky factor is κ-scaled, κ ≤ 1e8 here
+            rep.check("C11.chol.slice_close_to_matrix", regime, dmax <= kappa_room, || detail(regime, &how, n, &a, json!({"max_abs_difference": jnum(dmax), "bound": jnum(kappa_room)})));
+        }
+    }
+    // factor solves and the routed solver, every output element read by the residual
+    let b = rhs(rng, n);
+    if let Ok(l) = &ls {
+        if all_finite(l) && l.len() == n * n {
+            let x = guard(|| cholesky_solve(l, &b));
+            check_solve(rep, &CHOLESKY_SOLVE, regime, &how, "slice", &a, n, &x, &b);
+        }
+    }
+    if let Ok(l) = &lm {
+        if all_finite(&l.data) && l.data.len() == n * n && l.is_lower_triangular() {
+            let bv = Vector::new(b.clone());
+            let x = guard(|| l.cholesky_solve(&bv).to_vec());
+            check_solve(rep, &CHOLESKY_SOLVE, regime, &how, "Matrix/Vector", &a, n, &x, &b);
+            // two columns with different content
+            let b2: Vec<f64> = b.iter().rev().map(|v| -3.0 * v).collect();
+            let mut bb = vec![0.0; n * 2];
+            for i in 0..n {
+                bb[i * 2] = b[i];
+                bb[i * 2 + 1] = b2[i];
+            }
+            let bm = Matrix::new(bb, n as i32, 2);
+            match guard(|| l.cholesky_solve(&bm)) {
+                Ok(x) => {
+                    let shape_ok = x.nrows == n && x.ncols == 2 && x.data.len() == 2 * n;
+                    rep.check("C11.cholesky_solve.shape", regime, shape_ok, || detail(regime, &how, n, &a, json!({"shape": [x.nrows, x.ncols]})));
+                    if shape_ok {
+                        check_solve(rep, &CHOLESKY_SOLVE, regime, &how, "Matrix/Matrix col 0", &a, n, &Ok(col(&x.data, n, 2, 0)), &b);
+                        check_solve(rep, &CHOLESKY_SOLVE, regime, &how, "Matrix/Matrix col 1", &a, n, &Ok(col(&x.data, n, 2, 1)), &b2);
+                    }
+                }
+                Err(e) => check_solve(rep, &CHOLESKY_SOLVE, regime, &how, "Matrix/Matrix", &a, n, &Err(e), &b),
+            }
+        }
+    }
+    let x = guard(|| solve(&a, &b));
+    check_solve(rep, &SOLVE_SPD, regime, &how, "solve (routed)", &a, n, &x, &b);
+    rep.sample(|| json!({"class": regime, "how": how, "n": n}));
+}
+
+// ------------------------------------------------------------------------------------------------
+// input that is not positive definite must be rejected
+
+fn nonpd_case(rep: &mut Report, rng: &mut Rng, n: usize, psd: bool) {
+    let (a, how) = if psd {
+        gen_psd_singular(rng, n)
+    } else {
+        (gen_sym_indef(rng, n), "symmetric uniform(-1,1), diagonal in (0.1,1), one 2x2 principal minor negative".to_string())
+    };
+    nonpd_check(rep, n, psd, &a, &how);
+}
+
+fn nonpd_check(rep: &mut Report, n: usize, psd: bool, a: &[f64], how: &str) {
+    let regime = if psd { "chol-nonpd:psd-singular" } else { "chol-nonpd:sym-indef-posdiag" };
+    let (a, how) = (a.to_vec(), how.to_string());
+    rep.case(regime);
+    rep.distinct(Hasher::new().s(regime).u(n as u64).u(bits_digest(&a)).finish(), true);
+    let m = mat(&a, n);
+    let rs = guard(|| cholesky(&a));
+    let rm = guard(|| m.cholesky().data.to_vec());
+    for (form, assertion, r) in [("slice", "C11.chol.slice.rejects_nonpd", rs), ("Matrix", "C11.chol.matrix.rejects_nonpd", rm)] {
+        match r {
+            Err(_) => {
+                rep.seen("chol-nonpd:outcome:panic", 1);
+                rep.check(assertion, regime, true, || json!(null));
+            }
+            Ok(l) => {
+                let fin = all_finite(&l);
+                rep.seen(if fin { "chol-nonpd:outcome:finite-factor-returned" } else { "chol-nonpd:outcome:non-finite-factor-returned" }, 1);
+                rep.check(assertion, regime, fin, || detail(regime, &how, n, &a, json!({"form": form, "returned_L": jf(&l), "expected": "panic (input is not positive definite)"})));
+            }
+        }
+    }
+}
+
+// ------------------------------------------------------------------------------------------------
+// LU, determinant, lu_solve
+
+fn lu_case(rep: &mut Report, rng: &mut Rng, inp: &LuInput) {
+    let (n, a, regime, how) = (inp.n, &inp.a, inp.regime, inp.how.as_str());
+    rep.case(regime);
+    rep.distinct(Hasher::new().s(regime).u(n as u64).u(bits_digest(a)).finish(), n >= 2 && !is_diagonal(a, n));
+    let d = |obs: Value| detail(regime, how, n, a, obs);
+    let m = mat(a, n);
+    let rs = guard(|| lu(a));
+    let rm = guard(|| m.lu());
+    let ok_s = rep.check("C11.lu.no_panic", regime, rs.is_ok(), || d(json!({"form": "slice", "panic": rs.as_ref().err()})));
+    let ok_m = rep.check("C11.lu.no_panic", regime, rm.is_ok(), || d(json!({"form": "Matrix", "panic": rm.as_ref().err()})));
+    if !(ok_s && ok_m) {
+        return;
+    }
+    let (lus, pivs) = rs.unwrap();
+    let (lum, pivm) = rm.unwrap();
+    let same = same_bits_slice(&lus, &lum.data) && pivs == pivm && lum.nrows == n && lum.ncols == n;
+    rep.check("C11.lu.slice_eq_matrix", regime, same, || d(json!({"slice": {"lu": jf(&lus), "pivots": pivs}, "Matrix": {"lu": jf(&lum.data), "pivots": pivm}})));
+    let mut structure_ok = true;
+    let mut perm: Option<Vec<usize>> = None;
+    for (form, f, piv) in [("slice", &lus[..], &pivs), ("Matrix", &lum.data[..], &pivm)] {
+        if !rep.check("C11.lu.shape", regime, f.len() == n * n && piv.len() == n, || d(json!({"form": form, "len": f.len(), "pivots": piv}))) {
+            structure_ok = false;
+            continue;
+        }
+        structure_ok &= rep.check("C11.lu.finite", regime, all_finite(f), || d(json!({"form": form, "lu": jf(f)})));
+        let p = as_perm(piv, n);
+        structure_ok &= rep.check("C11.lu.pivots_permutation", regime, p.is_some(), || d(json!({"form": form, "pivots": piv})));
+        let bounded = (0..n).all(|i| (0..i).all(|j| f[i * n + j].abs() <= 1.0));
+        structure_ok &= rep.check("C11.lu.l_bounded", regime, bounded, || d(json!({"form": form, "lu": jf(f), "max_abs_l": jnum((0..n).flat_map(|i| (0..i).map(move |j| (i, j))).map(|(i, j)| f[i * n + j].abs()).fold(0.0, f64::max))})));
+        if let (Some(p), true) = (&p, all_finite(f)) {
+            // ‖P·A − L·U‖∞ ≤ C·n·ε·‖L‖∞‖U‖∞, row i of P·A is row pivots[i] of A
+            let (mut worst, mut lnorm, mut unorm) = (0.0f64, 0.0f64, 0.0f64);
+            for i in 0..n {
+                let (mut row, mut lrow, mut urow) = (0.0, 1.0, 0.0);
+                for j in 0..n {
+                    row += sum_prod_minus(a[p[i] * n + j], i.min(j) + 1, |t| (if t == i { 1.0 } else { f[i * n + t] }, f[t * n + j]));
+                    if j < i {
+                        lrow += f[i * n + j].abs();
+                    } else {
+                        urow += f[i * n + j].abs();
+                    }
+                }
+                worst = worst.max(row);
+                lnorm = lnorm.max(lrow);
+                unorm = unorm.max(urow);
+            }
+            let tol = C * n as f64 * EPS * lnorm * unorm;
+            let ok = worst <= tol;
+            if ok && tol > 0.0 {
+                rep.note_max("worst_ratio.lu.reconstruct_over_n_eps_normL_normU", worst / (n as f64 * EPS * lnorm * unorm));
+            }
+            structure_ok &= rep.check("C11.lu.reconstruct", regime, ok, || d(json!({"form": form, "lu": jf(f), "pivots": piv, "norm_PA_minus_LU": jnum(worst), "bound": jnum(tol)})));
+        }
+        if form == "Matrix" {
+            perm = p;
+        }
+    }
+
+    // determinant: |det| = |Π u_ii|, sign = sign(pivots) · sign(Π u_ii); the sign assertion is filed
+    // under the cycle structure of the pivot vector, which is what decides the parity
+    let perm = match perm {
+        Some(p) if all_finite(&lum.data) => p,
+        _ => return,
+    };
+    let (hsign, longest) = perm_sign_cycles(&perm);
+    let prod = (0..n).fold(1.0f64, |acc, i| acc * lum.data[i * n + i]);
+    let sign_regime = if longest >= 3 { "det:pivot-cycle>=3" } else { "det:pivot-involution" };
+    rep.seen(sign_regime, 1);
+    let dets = [("Matrix::det", guard(|| m.det())), ("Matrix::lu_det", guard(|| lum.lu_det(&pivm)))];
+    for (which, r) in &dets {
+        match r {
+            Err(e) => {
+                rep.check("C11.det.no_panic", regime, false, || d(json!({"which": which, "panic": e})));
+            }
+            Ok(det) => {
+                let tol = C * n as f64 * EPS * prod.abs();
+                let okm = (det.abs() - prod.abs()).abs() <= tol;
+                rep.check("C11.det.magnitude", regime, okm, || d(json!({"which": which, "det": jnum(*det), "product_of_U_diagonal": jnum(prod), "pivots": pivm})));
+                if prod != 0.0 && prod.is_finite() && okm {
+                    let oks = det.signum() == hsign * prod.signum();
+                    rep.check("C11.det.sign", sign_regime, oks, || {
+                        d(json!({"which": which, "det": jnum(*det), "product_of_U_diagonal": jnum(prod), "pivots": pivm, "permutation_sign_by_cycle_count": hsign, "longest_pivot_cycle": longest}))
+                    });
+                }
+            }
+        }
+    }
+    // the signed product against the exact determinant
+    let signed = hsign * prod;
+    if let Some(ex) = inp.exact_det {
+        rep.seen("det:exact-arithmetic-reference", 1);
+        rep.check("C11.det.vs_exact", regime, signed == ex, || d(json!({"signed_product": jnum(signed), "exact_determinant": ex, "pivots": pivm, "lu": jf(&lum.data)})));
+    } else if inp.integer && n <= if cfg!(miri) { 5 } else { 12 } {
+        let ai: Vec<i64> = a.iter().map(|&v| v as i64).collect();
+        if let (Some(ex), Some(cof)) = (exact::bareiss_det(&ai, n), exact::cofactors(&ai, n)) {
+            rep.seen("det:bareiss-reference", 1);
+            // first-order bound: P·A + E = L·U with |E| ≤ γ|L||U|  ⇒  |δdet| ≤ Σ_ij |E_ij|·|cofactor_ij(P·A)|
+            let f = &lum.data;
+            let mut acc = 0.0f64;
+            for i in 0..n {
+                for j in 0..n {
+                    let mut lu_abs = 0.0;
+                    for t in 0..=i.min(j) {
+                        let lit = if t == i { 1.0 } else { f[i * n + t].abs() };
+                        lu_abs += lit * f[t * n + j].abs();
+                    }
+                    acc += lu_abs * (cof[perm[i] * n + j] as f64).abs();
+                }
+            }
+            let hadamard: f64 = (0..n).map(|i| (0..n).map(|j| a[i * n + j] * a[i * n + j]).sum::<f64>().sqrt()).product();
+            let cne = C * n as f64 * EPS;
+            let tol = cne * (acc + (ex as f64).abs()) + cne * cne * hadamard;
+            let err = (signed - ex as f64).abs();
+            let ok = err <= tol;
+            if ok && tol > 0.0 {
+                rep.note_max("worst_ratio.det.vs_exact_over_bound", err / tol);
+            }
+            rep.check("C11.det.vs_exact", regime, ok, || d(json!({"signed_product": jnum(signed), "exact_determinant": ex.to_string(), "error": jnum(err), "bound": jnum(tol), "pivots": pivm})));
+        }
+    }
+
+    // lu_solve on the factors, only where the property promises a solution (nonsingular, moderate κ)
+    if structure_ok && cond_inf(a, n) <= 1e10 {
+        rep.seen("lu_solve:nonsingular-input", 1);
+        let b = rhs(rng, n);
+        let x = guard(|| lu_solve(&lus, &pivs, &b));
+        check_solve(rep, &LU_SOLVE, regime, how, "slice", a, n, &x, &b);
+        let bv = Vector::new(b.clone());
+        let x = guard(|| lum.lu_solve(&pivm, &bv).to_vec());
+        check_solve(rep, &LU_SOLVE, regime, how, "Matrix/Vector", a, n, &x, &b);
+        let b2: Vec<f64> = b.iter().rev().map(|v| 5.0 * v).collect();
+        let mut bb = vec![0.0; n * 2];
+        for i in 0..n {
+            bb[i * 2] = b2[i];
+            bb[i * 2 + 1] = b[i];
+        }
+        let bm = Matrix::new(bb, n as i32, 2);
+        match guard(|| lum.lu_solve(&pivm, &bm)) {
+            Ok(x) => {
+                let shape_ok = x.nrows == n && x.ncols == 2 && x.data.len() == 2 * n;
+                rep.check("C11.lu_solve.shape", regime, shape_ok, || d(json!({"shape": [x.nrows, x.ncols]})));
+                if shape_ok {
+                    check_solve(rep, &LU_SOLVE, regime, how, "Matrix/Matrix col 0", a, n, &Ok(col(&x.data, n, 2, 0)), &b2);
+                    check_solve(rep, &LU_SOLVE, regime, how, "Matrix/Matrix col 1", a, n, &Ok(col(&x.data, n, 2, 1)), &b);
+                }
+            }
+            Err(e) => check_solve(rep, &LU_SOLVE, regime, how, "Matrix/Matrix", a, n, &Err(e), &b),
+        }
+    }
+    rep.sample(|| json!({"class": regime, "how": how, "n": n, "pivots": pivm, "longest_pivot_cycle": longest}));
+}
+
+// ------------------------------------------------------------------------------------------------
+// forward / backward substitution, both forms
+
+fn subst_case(rep: &mut Report, rng: &mut Rng, n: usize) {
+    let regime = "substitution";
+    rep.case(regime);
+    let scale = 2f64.powi(rng.int(-8, 8) as i32);
+    let off = 1.0 / (n as f64).sqrt();
+    let mut l = vec![0.0; n * n];
+    let mut u = vec![0.0; n * n];
+    for i in 0..n {
+        for j in 0..n {
+            let dg = scale * rng.range(1.0, 2.0) * if rng.bool() { 1.0 } else { -1.0 };
+            let of = scale * off * rng.range(-1.0, 1.0);
+            if i == j {
+                l[i * n + j] = dg;
+                u[i * n + j] = scale * rng.range(1.0, 2.0) * if rng.bool() { 1.0 } else { -1.0 };
+            } else if j < i {
+                l[i * n + j] = of;
+            } else {
+                u[i * n + j] = of;
+            }
+        }
+    }
+    rep.distinct(Hasher::new().s(regime).u(n as u64).u(bits_digest(&l)).u(bits_digest(&u)).finish(), n >= 2);
+    let b = rhs(rng, n);
+    let how = format!("triangular, |diagonal| in [1,2]·2^k, off-diagonal uniform(-1,1)·2^k/sqrt(n), 2^k = {}", scale);
+    let x = guard(|| forward_substitution(&l, &b));
+    check_solve(rep, &FORWARD_SUBST, regime, &how, "slice", &l, n, &x, &b);
+    let lm = mat(&l, n);
+    let x = guard(|| lm.forward_substitution(&b).to_vec());
+    check_solve(rep, &FORWARD_SUBST, regime, &how, "Matrix", &l, n, &x, &b);
+    let x = guard(|| backward_substitution(&u, &b));
+    check_solve(rep, &BACKWARD_SUBST, regime, &how, "slice", &u, n, &x, &b);
+    let um = mat(&u, n);
+    let x = guard(|| um.backward_substitution(&b).to_vec());
+    check_solve(rep, &BACKWARD_SUBST, regime, &how, "Matrix", &u, n, &x, &b);
+}
+
+// ------------------------------------------------------------------------------------------------
+
+/// k-th permutation of 0..n in lexicographic order (factorial number system)
+fn nth_perm(n: usize, mut k: usize) -> Vec<usize> {
+    let mut items: Vec<usize> = (0..n).collect();
+    let mut fact: Vec<usize> = vec![1; n + 1];
+    for i in 1..=n {
+        fact[i] = fact[i - 1] * i;
+    }
+    let mut out = Vec::with_capacity(n);
+    for i in (0..n).rev() {
+        let idx = k / fact[i];
+        k %= fact[i];
+        out.push(items.remove(idx));
+    }
+    out
+}
+
+pub fn run(cfg: &Cfg, rep: &mut Report) {
+    rep.rule = "stream 0: four hand-written minimal instances ([1 2; 2 1], 3x3 all-ones, an order-16 SPD Toeplitz matrix, the permutation matrix with pivot vector [1,2,3,0]); then SPD matrices (order 1 + i mod Nmax) through both Cholesky forms, cholesky_solve and the routed solve; general matrices (class = i mod 8, order cycling 1..Nmax; integer classes alternate between 1..10 and 1..Nmax) through both LU forms, det, lu_det, lu_solve; every permutation matrix of order <= 6; triangular systems through both substitution forms; non-positive-definite symmetric matrices (orders 2..Nmax) through both Cholesky forms. non-trivial = order >= 2 and not diagonal; distinct by hash of (class, n, bits of the matrix)".into();
+    rep.assume("orders 1..32; SPD input has condition number <= 1e8 (G^T G + delta I); entries are finite and far from overflow (|a| <= 1e3)");
+    rep.assume(&format!("rounding bounds: |L L^T - A|_inf <= C n eps |A|_inf; |P A - L U|_inf <= C n eps |L|_inf |U|_inf; triangular / factor solves: backward error <= C n eps; C = {}, eps = 2^-52", C));
+    rep.assume("determinant of integer matrices (|a| <= 5, order <= 12): |sign·prod(diag U) - det_exact| <= C n eps (sum_ij (|L||U|)_ij |cofactor_ij| + |det|) + (C n eps)^2 · Hadamard bound; exact equality for (scaled) permutation matrices");
+    rep.assume("lu_solve is only judged when cond_inf(A) <= 1e10 (double-double inverse); a PSD-singular input for which cholesky returns a *finite* factor is counted (chol-nonpd:outcome:finite-factor-returned) but not a violation: the property forbids non-finite factors");
+    if cfg.miri() {
+        rep.assume("Miri layer: residual sums are accumulated in plain f64 instead of double-double (their own rounding error adds < 1 to ratios compared with C = 16), cond_inf comes from an f64 Gauss-Jordan inverse, the Bareiss/cofactor reference is limited to order <= 5, LU orders are {1,3,6,12}, permutation matrices are enumerated to order 3 (+ the order-4 cycle)");
+    }
+    let miri = cfg.miri();
+    let nmax = if miri { 12 } else { 32 };
+
+    // 0. hand-written minimal instances first, so that the replay record of a finding is the smallest one
+    par_cases(cfg, rep, 6, 1, |_i, rng, rep| {
+        nonpd_check(rep, 2, false, &[1.0, 2.0, 2.0, 1.0], "the 2x2 matrix [1 2; 2 1] (eigenvalues 3 and -1)");
+        nonpd_check(rep, 3, true, &[1.0; 9], "the 3x3 all-ones matrix (rank 1, eigenvalues 3, 0, 0)");
+        // pivots of a permutation matrix are sigma^-1: sigma = [3,0,1,2] gives the pivot vector [1,2,3,0]
+        // order 16 is the smallest order at which the two Cholesky forms sum in a different order
+        if !cfg.miri() {
+            let a: Vec<f64> = (0..256usize).map(|t| 1.0 / (1.0 + (t / 16).abs_diff(t % 16) as f64) + if t / 16 == t % 16 { 1.0 } else { 0.0 }).collect();
+            chol_check(rep, rng, 16, a, "order 16, a_ij = 1/(1+|i-j|) + [i=j] (symmetric positive definite Toeplitz)".to_string());
+        }
+        let sigma = [3usize, 0, 1, 2];
+        let inp = LuInput { regime: "lu:perm-matrix", how: format!("permutation matrix, sigma = {:?} (4-cycle, determinant -1)", sigma), n: 4, a: perm_matrix(&sigma, &[1.0; 4]), integer: true, exact_det: Some(-1.0) };
+        lu_case(rep, rng, &inp);
+    });
+
+    // 1. Cholesky on SPD input
+    let n1 = cfg.pick(1000, 25000, if miri { 12 } else { 24 });
+    par_cases(cfg, rep, 1, n1, |i, rng, rep| chol_case(rep, rng, 1 + i % nmax));
+
+    // 2. LU on general matrices
+    let n2 = cfg.pick(2400, 60000, if miri { 32 } else { 64 });
+    let ncl = LU_CLASSES.len();
+    const MIRI_ORDERS: [usize; 4] = [1, 3, 6, 12];
+    par_cases(cfg, rep, 2, n2, |i, rng, rep| {
+        let class = LU_CLASSES[i % ncl];
+        let mut n = if miri { MIRI_ORDERS[(i / ncl) % 4] } else { 1 + (i / ncl) % nmax };
+        let small_round = (i / ncl / nmax) % 2 == 0;
+        if small_round && matches!(class, "lu:integer" | "lu:singular" | "lu:rank-deficient" | "lu:zero-leading") {
+            n = 1 + (n - 1) % 10;
+        }
+        let alt = ((i / ncl) + (i / ncl / nmax)) % 2 == 1;
+        let inp = gen_lu(rng, class, n, alt);
+        lu_case(rep, rng, &inp);
+    });
+
+    // 3. all permutation matrices of order <= 6 (Miri: <= 3; the order-4 cycle is in stream 0)
+    let maxo = if miri { 3 } else { 6 };
+    rep.exhaustive = Some(maxo == 6);
+    let mut index: Vec<(usize, usize)> = Vec::new();
+    for n in 1..=maxo {
+        let f: usize = (1..=n).product();
+        for k in 0..f {
+            index.push((n, k));
+        }
+    }
+    rep.note("permutation_matrices_enumerated", json!(index.len()));
+    par_cases(cfg, rep, 3, index.len(), |i, rng, rep| {
+        let (n, k) = index[i];
+        let sigma = nth_perm(n, k);
+        let (sg, _) = perm_sign_cycles(&sigma);
+        let inp = LuInput { regime: "lu:perm-matrix:exhaustive", how: format!("permutation matrix, sigma = {:?}", sigma), n, a: perm_matrix(&sigma, &vec![1.0; n]), integer: true, exact_det: Some(sg) };
+        lu_case(rep, rng, &inp);
+    });
+
+    // 4. substitution, both forms, every order
+    let n4 = cfg.pick(600, 15000, 24);
+    par_cases(cfg, rep, 4, n4, |i, rng, rep| subst_case(rep, rng, 1 + i % nmax));
+
+    // 5. not positive definite ⇒ cholesky must panic (orders 2..Nmax)
+    let n5 = cfg.pick(300, 6000, 4);
+    par_cases(cfg, rep, 5, n5, |i, rng, rep| {
+        let n = 2 + (i / 2) % (nmax - 1);
+        nonpd_case(rep, rng, n, i % 2 == 1);
+    });
+
+    for r in ["chol-spd", "substitution", "chol-nonpd:sym-indef-posdiag", "chol-nonpd:psd-singular", "lu:perm-matrix:exhaustive", "lu:perm-scaled", "det:pivot-cycle>=3", "det:pivot-involution", "det:bareiss-reference", "det:exact-arithmetic-reference", "lu_solve:nonsingular-input"] {
+        rep.require(r, 1);
+    }
+    for c in LU_CLASSES {
+        rep.require(c, 1);
+    }
+    rep.require("lu:perm-matrix:exhaustive", index.len() as u64);
 }
